@@ -37,6 +37,29 @@ def plan(tier, seed):
 def make_tree(seed, t):
     r = rng("c14tree", seed, t)
     sc = c11.scripts()
+    if t % 3 == 2:
+        # tiny tree: a single file with one or two blocks, each violating several rules at once, so that every
+        # validator's only block is also some other validator's only block
+        s = scenario.Scenario()
+        blocks = []
+        for k in range(r.choice([1, 1, 2])):
+            kinds = r.sample(["keep-sorted", "keep-unique", "line-pattern", "line-count", "check-lua", "check-ai"], r.randint(2, 6))
+            for _ in range(40):
+                b = scenario.gen_block(r, "t%d" % k, sc, force=kinds)
+                if len(b.expected) >= min(2, len(kinds)):
+                    break
+            blocks.append(b)
+        path = "only.py"
+        s.files[path] = scenario.render_file(blocks, "#")
+        s.blocks[path] = blocks
+        s.order.append(path)
+        for b in blocks:
+            for code, sev in b.expected:
+                s.expected.append((path, b.name, code, sev))
+            if b.ai_token:
+                s.ai[b.ai_token] = b.ai_reply
+        diff = scenario.add_affects(r, s, p=0.6)
+        return s, diff
     for attempt in range(50):
         s = scenario.gen_scenario(r, sc, nfiles=r.randint(2, 5), min_blocks=2, max_blocks=7)
         diff = scenario.add_affects(r, s)
@@ -78,6 +101,8 @@ def run_job(job, ctx):
     got0 = observed(base)
     active = s.validators_active()
     out = []
+    if not diff:
+        diff = ""
     if bad_outcome(base) or got0 != exp0 or base.rc != (1 if any(sv == 1 for *_x, sv in exp0) else 0):
         return [Case(VIOLATED, key=tkey, nontrivial=True, sig="C14/baseline-differs-from-truth",
                      summary="unrestricted run differs from construction truth: exit %d, got %s expected %s; stderr %s" % (
